@@ -12,6 +12,7 @@
 
 static const char* g_mode = "footprint";
 static int g_pairs = 0;
+static const char* g_only_wl = NULL;   /* fault mode: restrict the enumeration to one workload */
 static char g_case_desc[300];
 static void vf_op_str(vf_op_t op, char* buf, size_t n) { snprintf(buf, n, "case(%ld,%ld)", op.a, op.b); }
 static int  vf_list_ops(vf_op_t* out, int max) { (void)out; (void)max; return 0; }
@@ -145,8 +146,8 @@ static void* th_main(void* a) {
   for (int i = t->keep; i < t->nblocks; i++) { mi_free(t->out[i]); t->out[i] = NULL; }
   return NULL;
 }
-static const char* wl_names[] = { "small", "large", "huge", "aligned-huge", "threads8", "threads40", "heaps", "realloc", "mixed", "timed" };
-#define NWL 10
+static const char* wl_names[] = { "small", "large", "huge", "aligned-huge", "threads8", "threads40", "heaps", "realloc", "mixed", "timed", "staggered" };
+#define NWL 11
 static int run_workload(int w) {
   switch (w) {
     case 0: /* small / medium churn over several pages */
@@ -206,6 +207,13 @@ static int run_workload(int w) {
         if (vf_model_alloc(q, n, 0, 0, 0, 0, "mi_realloc") < 0) return -1;
         vf_blk_t nb = vf_live[vf_nlive - 1]; memmove(&vf_live[i + 1], &vf_live[i], (size_t)(vf_nlive - 1 - i) * sizeof(vf_blk_t)); vf_live[i] = nb;
       }
+      return w_free_all();
+    case 10: /* staggered: the upper blocks of an arena are released and force-collected while a lower block is still live, then the rest */
+      if (w_alloc(20 * MiB, 0, 0) || w_alloc(100 * MiB, 0, 0) || w_alloc(40 * MiB, 0, 0)) return -1;
+      if (w_free_idx(1)) return -1;      /* the 100 MiB block: several arena blocks that do not start at the first one */
+      mi_collect(true);
+      if (w_free_idx(1)) return -1;      /* the 40 MiB block behind it */
+      mi_collect(true);
       return w_free_all();
     case 9: { /* timed: frees spread over the purge delay with non-forced collects in between (two arenas when arenas are small) */
       long d = mi_option_get(mi_option_purge_delay) * mi_option_get(mi_option_arena_purge_mult); if (d <= 0) d = 100;
@@ -433,7 +441,24 @@ static void recovery_and_quiescence(snap_t* base) {
   size_t refused = 0;
   for (long k = 0; k < vf_os.ncalls && k < VF_MAX_CALLS; k++) if (vf_os.calls[k].kind == VF_C_MUNMAP && vf_os.calls[k].failed) refused += (vf_os.calls[k].len + 4095) & ~(size_t)4095;
   if (s.os_bytes > base->os_bytes + refused && vf_verbose) vf_os_dump(2);
-  if (s.os_bytes > base->os_bytes + refused) { VIOL("os-region-not-unmapped", "after recovery + free-all + mi_collect(true): %zu bytes obtained directly from the OS are still mapped (baseline %zu, refused munmaps %zu); first [%p,+%zu)", s.os_bytes, base->os_bytes, refused, (void*)s.first_os, s.first_os_len); return; }
+  if (s.os_bytes > base->os_bytes + refused) {
+    /* classify: is everything that is left a whole segment straight from the OS that holds no page at all (known finding C07:
+       obtained after a refused commit elsewhere, never used because the retry succeeded in the old segment, and segments are
+       only released when their last page is freed)? */
+    size_t unused_seg_bytes = 0;
+    for (int i = 0; i < vf_os.nregions; i++) {
+      const vf_region_t* r = &vf_os.regions[i];
+      if (r->adopted || in_arena(r->start, r->end) || is_retained_metadata(r->start, r->end)) continue;
+      uintptr_t sb = r->start & ~(uintptr_t)(MI_SEGMENT_SIZE - 1);
+      int unused = 0;
+      if (vf_os_accessible((void*)sb, sizeof(mi_segment_t))) { const mi_segment_t* seg = (const mi_segment_t*)sb; unused = (seg->cookie == _mi_ptr_cookie(seg) && seg->used == 0 && seg->kind == MI_SEGMENT_NORMAL && r->end <= sb + MI_SEGMENT_SIZE); }
+      if (unused) unused_seg_bytes += r->end - r->start;
+    }
+    if (unused_seg_bytes >= s.os_bytes - base->os_bytes - refused)
+      VIOL("fresh-segment-never-used-kept", "after recovery + free-all + mi_collect(true): %zu bytes obtained directly from the OS are still mapped: whole segment(s) that hold no page (obtained after a refused commit, then not needed because the retry succeeded elsewhere); first [%p,+%zu)", s.os_bytes, (void*)s.first_os, s.first_os_len);
+    else
+    { VIOL("os-region-not-unmapped", "after recovery + free-all + mi_collect(true): %zu bytes obtained directly from the OS are still mapped (baseline %zu, refused munmaps %zu); first [%p,+%zu)", s.os_bytes, base->os_bytes, refused, (void*)s.first_os, s.first_os_len); return; }
+  }
 }
 static void fault_case(long ci) {
   fcase_t fc = g_fcases[ci];
@@ -482,6 +507,7 @@ int main(int argc, char** argv) {
   vf_outdir = vf_arg(argc, argv, "--outdir", "/verif");
   g_mode = vf_arg(argc, argv, "--mode", "footprint");
   g_pairs = vf_flag(argc, argv, "--pairs");
+  g_only_wl = vf_arg(argc, argv, "--only-workload", NULL);
   const char* out = vf_arg(argc, argv, "--out", NULL);
   const char* replay = vf_arg(argc, argv, "--replay", NULL);
   vf_verbose = vf_flag(argc, argv, "-v");
@@ -515,6 +541,7 @@ int main(int argc, char** argv) {
     g_fcases = (fcase_t*)mmap(NULL, sizeof(fcase_t) * (size_t)(total + 1), PROT_READ | PROT_WRITE, MAP_PRIVATE | MAP_ANONYMOUS, -1, 0);
     for (int wi = 0; wi < NWLF; wi++) {
       int w = g_wl_fault[wi]; long n = shared_dry[w];
+      if (g_only_wl && strcmp(g_only_wl, wl_names[w]) != 0) continue;
       for (int p = 0; p < NPLAN; p++) for (long k = 0; k < n; k++) {
 #if MI_DEBUG
         /* debug builds abort by design on a failing decommit (mi_assert_internal(err == 0) in mi_os_decommit_ex):
